@@ -482,6 +482,52 @@ def decision(e):
     return tests, br[1], br[2]
 
 
+def result_expr(e):
+    """the value an expression / block ends in: the operand of a trailing `return`, else the tail expression"""
+    e = strip(e)
+    if e.get("k") == "Block":
+        real = [s for s in e.get("stmts", []) if s["k"] != "Item"]
+        if e.get("expr") is not None:
+            return result_expr(e["expr"])
+        if real and real[-1]["k"] in ("Semi", "Expr"):
+            return result_expr(real[-1]["expr"])
+        return e
+    if e.get("k") == "Ret" and e.get("e") is not None:
+        return strip(e["e"])
+    return e
+
+
+def two_results(body):
+    """(condition, value when it holds, value when it does not) of a function body that is ONE two-way decision, in any spelling:
+    `if c {A} else {B}` / `match c {true => A, false => B}` as the tail, or a guard clause `if c { return A }` followed by REST ending in B
+    (leading `!` folded into the order, see as_branch).  Values are read with result_expr; named temporaries of REST are NOT substituted
+    (callers use through_lets with let_env(body)).  None for any other shape."""
+    b = strip(body)
+    if b.get("k") != "Block":
+        br = as_branch(b)
+        return (br[0], result_expr(br[1]), result_expr(br[2])) if br and br[1] is not None and br[2] is not None else None
+    real = [s for s in b.get("stmts", []) if s["k"] != "Item"]
+    for i, s in enumerate(real):
+        if s["k"] in ("Semi", "Expr"):
+            br = as_branch(s["expr"])
+            if br is None:
+                return None
+            c, t, el = br
+            rest = {"k": "Block", "stmts": real[i + 1:], "expr": b.get("expr")}
+            if t is not None and leaves(t) and el is None:
+                return c, result_expr(t), result_expr(rest)
+            if el is not None and leaves(el) and t is None:
+                return c, result_expr(rest), result_expr(el)
+            return None
+        if s["k"] != "Let":
+            return None
+    if b.get("expr") is not None:
+        br = as_branch(b["expr"])
+        if br and br[1] is not None and br[2] is not None:
+            return br[0], result_expr(br[1]), result_expr(br[2])
+    return None
+
+
 # ---- branches ---------------------------------------------------------------------------------------------------------------------------
 def as_branch(e):
     """(cond, then, else|None) of an `if` / two-armed bool `match`, leading negations of the condition folded into the branch order"""
